@@ -15,6 +15,7 @@ def tlcpTables : Option Tables :=
     Facts.tlcp.saPcVerifyOp Facts.tlcp.saPcVerifyRhs Facts.tlcp.saPcAnyUsagePolicy
     Facts.tlcp.saPcKeyUsages Facts.tlcp.saPcEcdheMin Facts.tlcp.saCvOp Facts.tlcp.saCvRhs
     Facts.tlcp.saResumeNeedCertGuard Facts.tlcp.saResumeNoPolicyGuard Facts.tlcp.saResumeReverifies
+    Facts.tlcp.saVhsAssertReturns
 
 def dtlcpTables : Option Tables :=
   tablesOf Facts.dtlcp.saPolicyOrder Facts.dtlcp.saRequires
@@ -23,16 +24,24 @@ def dtlcpTables : Option Tables :=
     Facts.dtlcp.saPcVerifyOp Facts.dtlcp.saPcVerifyRhs Facts.dtlcp.saPcAnyUsagePolicy
     Facts.dtlcp.saPcKeyUsages Facts.dtlcp.saPcEcdheMin Facts.dtlcp.saCvOp Facts.dtlcp.saCvRhs
     Facts.dtlcp.saResumeNeedCertGuard Facts.dtlcp.saResumeNoPolicyGuard Facts.dtlcp.saResumeReverifies
+    Facts.dtlcp.saVhsAssertReturns
 
 /-- the facts about the *shape* of the code that the model relies on but does not take as
 parameters (a change makes `C07_facts` fail): which expressions are compared, which key and
 which transcript verify the CertificateVerify, the order of the steps of
-`processCertsFromClient`, which certificates are verified, what the session records. -/
+`processCertsFromClient`, which certificates are verified and that the error of EACH `Verify`
+is inspected (and returned) before anything else happens to it, that an error of
+`verifyHandshakeSignature` ends `doFullHandshake`, that all four suites sign with ECC_SM3, the
+shape of that case of `verifyHandshakeSignature` (assert `*ecdsa.PublicKey`, verify with
+`sm2.VerifyASN1WithSM2` over the same `tbs`/`sig`, error when it fails, nil otherwise), what the
+session records. -/
 def shapeOK (order : List String) (policyInit certReqSubject certMsgSubject : String)
     (promoteSuites : List String) (cvSubject cvSigned cvPub cvPubGuard : String)
     (cvMandatory cvHashedAfter : Bool) (pcSteps : List String)
     (requireCond verifyPolicyExpr verifyLenCond anyUsageOp : String) (usagesAny verified0 : List String)
-    (setsChains : Bool) (keyKinds : List String) (sessionRecords : String) : Bool :=
+    (setsChains : Bool) (keyKinds : List String) (sessionRecords : String)
+    (inspected : List String) (cvErrReturns : Bool) (sigTypeFrom sigType : String) (sigSuites : List String)
+    (vhsKeyType vhsVerifyCond : String) (vhsFailReturns : Bool) (vhsShape : List String) (vhsFinal : String) : Bool :=
   order.length == 6 &&
   policyInit == "c.config.ClientAuth" && certReqSubject == "authPolice" && certMsgSubject == "authPolice" &&
   promoteSuites == ["ECDHE_SM4_CBC_SM3", "ECDHE_SM4_GCM_SM3"] &&
@@ -43,7 +52,12 @@ def shapeOK (order : List String) (policyInit certReqSubject certMsgSubject : St
   requireCond == "len(certs) == 0 && requiresClientCert(c.config.ClientAuth)" &&
   verifyPolicyExpr == "c.config.ClientAuth" && verifyLenCond == "len(certs) > 0" && anyUsageOp == "==" &&
   usagesAny == ["ExtKeyUsageAny"] && verified0.take 1 == ["certs[0]"] && verified0.length == 2 &&
-  setsChains && keyKinds == ["*ecdsa.PublicKey", "*rsa.PublicKey"] && sessionRecords == "hs.peerCertificates"
+  setsChains && keyKinds == ["*ecdsa.PublicKey", "*rsa.PublicKey"] && sessionRecords == "hs.peerCertificates" &&
+  inspected == ["certs[0]:checked", "certs[1]:checked"] && cvErrReturns &&
+  sigTypeFrom == "typeAndHashFrom(hs.suite.id)" && sigType == "ECC_SM3" &&
+  sigSuites == ["ECC_SM4_CBC_SM3", "ECC_SM4_GCM_SM3", "ECDHE_SM4_CBC_SM3", "ECDHE_SM4_GCM_SM3"] &&
+  vhsKeyType == "*ecdsa.PublicKey" && vhsVerifyCond == "!sm2.VerifyASN1WithSM2(pubKey, nil, tbs, sig)" &&
+  vhsFailReturns && vhsShape == ["assert", "assert-failed", "verify"] && vhsFinal == "nil"
 
 def tlcpShapeOK : Bool :=
   shapeOK Facts.tlcp.saPolicyOrder Facts.tlcp.saPolicyInit Facts.tlcp.saCertReqSubject Facts.tlcp.saCertMsgSubject
@@ -52,6 +66,9 @@ def tlcpShapeOK : Bool :=
     Facts.tlcp.saPcRequireCond Facts.tlcp.saPcVerifyPolicyExpr Facts.tlcp.saPcVerifyLenCond
     Facts.tlcp.saPcAnyUsageOp Facts.tlcp.saPcKeyUsagesAny Facts.tlcp.saPcVerified
     Facts.tlcp.saPcSetsVerifiedChains Facts.tlcp.saPcKeyKinds Facts.tlcp.saSessionRecords
+    Facts.tlcp.saPcVerifyInspected Facts.tlcp.saCvErrReturns Facts.tlcp.saCvSigTypeFrom Facts.tlcp.saSigTypeSm2
+    Facts.tlcp.saSigTypeSm2Suites Facts.tlcp.saVhsKeyType Facts.tlcp.saVhsVerifyCond Facts.tlcp.saVhsVerifyFailReturns
+    Facts.tlcp.saVhsShape Facts.tlcp.saVhsFinalReturn
 
 def dtlcpShapeOK : Bool :=
   shapeOK Facts.dtlcp.saPolicyOrder Facts.dtlcp.saPolicyInit Facts.dtlcp.saCertReqSubject Facts.dtlcp.saCertMsgSubject
@@ -60,5 +77,8 @@ def dtlcpShapeOK : Bool :=
     Facts.dtlcp.saPcRequireCond Facts.dtlcp.saPcVerifyPolicyExpr Facts.dtlcp.saPcVerifyLenCond
     Facts.dtlcp.saPcAnyUsageOp Facts.dtlcp.saPcKeyUsagesAny Facts.dtlcp.saPcVerified
     Facts.dtlcp.saPcSetsVerifiedChains Facts.dtlcp.saPcKeyKinds Facts.dtlcp.saSessionRecords
+    Facts.dtlcp.saPcVerifyInspected Facts.dtlcp.saCvErrReturns Facts.dtlcp.saCvSigTypeFrom Facts.dtlcp.saSigTypeSm2
+    Facts.dtlcp.saSigTypeSm2Suites Facts.dtlcp.saVhsKeyType Facts.dtlcp.saVhsVerifyCond Facts.dtlcp.saVhsVerifyFailReturns
+    Facts.dtlcp.saVhsShape Facts.dtlcp.saVhsFinalReturn
 
 end Gotlcp.Model.ServerAuthn
